@@ -54,14 +54,19 @@ void *__wrap_malloc(size_t n) {
   return __real_malloc(n);
 }
 void *__real_mmap(void *, size_t, int, int, int, off_t);
+static size_t map_len = 0;     /* what the kernel was last asked to give the library-managed buffer */
 void *__wrap_mmap(void *a, size_t l, int p, int f, int fd, off_t o) {
   if (hit(K_MMAP)) { errno = ferr(ENOMEM); return MAP_FAILED; }
-  return __real_mmap(a, l, p, f, fd, o);
+  void *r = __real_mmap(a, l, p, f, fd, o);
+  if (in_lib && r != MAP_FAILED) map_len = l;
+  return r;
 }
 void *__real_mremap(void *, size_t, size_t, int, ...);
 void *__wrap_mremap(void *a, size_t o, size_t n, int f, ...) {
   if (hit(K_MREMAP)) { errno = ferr(ENOMEM); return MAP_FAILED; }
-  return __real_mremap(a, o, n, f);
+  void *r = __real_mremap(a, o, n, f);
+  if (in_lib && r != MAP_FAILED) map_len = n;
+  return r;
 }
 int __real_munmap(void *, size_t);
 int __wrap_munmap(void *a, size_t l) {
@@ -216,6 +221,11 @@ int main(int argc, char **argv) {
     /* the instance is still usable and can be destroyed */
     int rc3 = LIB(asm_assemble_str(al, P3)); OUT();
     printf("asm3=%d off3=%d delta3=%d\n", rc3, asm_get_offset(al), asm_get_offset(al) - offn);
+    /* the recorded buffer length is what the kernel was asked for (the model's invariant bufLen = |mem|) */
+    if (!external) {
+      struct { uint8_t *buffer; int buffer_len; } *pk = (void *)al;
+      printf("lenmatch=%d\n", (size_t)pk->buffer_len == map_len);
+    }
     int rcd = LIB(asm_destroy_instance(al)); OUT();
     printf("destroy=%d\n", rcd);
   }
